@@ -296,9 +296,12 @@ def check(run):
         if inner is not None:
             res = {}
             try:
-                for name, shape in (("empty", []), ("root-only", [b""]), ("root+segment", [b"", b"x"]), ("segment-only", [b"x"])):
+                for name, shape in (("empty", []), ("root-only", [b""]), ("root+segment", [b"", b"x"]), ("segment-only", [b"x"]),
+                                    ("root+segment+empty", [b"", b"x", b""]), ("segment+empty", [b"x", b""]), ("root+empty", [b"", b""])):
                     res[name] = bool(_eval(inner.test, {stk: shape}))
-                ok_root = res == {"empty": False, "root-only": False, "root+segment": True, "segment-only": True}
+                # an empty segment that is not the root (`/a//..`) is a segment like any other: '..' cancels it
+                ok_root = res == {"empty": False, "root-only": False, "root+segment": True, "segment-only": True, "root+segment+empty": True, "segment+empty": True,
+                                  "root+empty": True}
                 det = f"pop guard `{norm_src(inner.test)}` evaluates to {res}; the root segment of an absolute path must stay (root-only -> False)"
             except ValueError as e:
                 det = str(e)
